@@ -172,6 +172,9 @@ type vKit struct {
 	// minVia: "server" = clustering.min.insync.replicas of every server, "stream" = the stream's own
 	// override in its CreateStream config (the server setting stays at its default 1)
 	minVia string
+	// wideEvery > 0: every message whose number is a multiple of it is stored as a record of
+	// twice the plain size (replication responses are packed by size)
+	wideEvery int
 	fetchMax int
 	batch    int
 	gapMs    int
@@ -425,6 +428,15 @@ func (k *vKit) leaderPart() *partition {
 	return p
 }
 
+// pad returns the filler that brings the value of message v to its size class.
+func (k *vKit) pad(v int64, have int) string {
+	n := 24 - have
+	if k.wideEvery > 0 && v%int64(k.wideEvery) == 0 {
+		n += 92 + len(k.subject)
+	}
+	return strings.Repeat(".", n)
+}
+
 func (k *vKit) publish(v int64, pol string, big bool) string {
 	p := k.leaderPart()
 	if p == nil {
@@ -435,7 +447,7 @@ func (k *vKit) publish(v int64, pol string, big bool) string {
 	if big {
 		val += strings.Repeat("X", int(p.srv.config.Clustering.ReplicationMaxBytes)+64)
 	} else {
-		val += strings.Repeat(".", 24-len(val))
+		val += k.pad(v, len(val))
 	}
 	data, err := proto.MarshalPublish(&client.Message{
 		Value: []byte(val), AckInbox: k.ackInbox, CorrelationId: fmt.Sprintf("c%d", v),
@@ -479,7 +491,7 @@ func (k *vKit) publishBatch(vs []int64, pols []string, bigs []bool) string {
 		if bigs[i] {
 			val += strings.Repeat("X", int(p.srv.config.Clustering.ReplicationMaxBytes)+64)
 		} else {
-			val += strings.Repeat(".", 24-len(val))
+			val += k.pad(v, len(val))
 			want++
 		}
 		data, err := proto.MarshalPublish(&client.Message{
@@ -837,8 +849,21 @@ func (k *vKit) state() vRepState {
 		isr = append(isr, id)
 	}
 	sort.Strings(isr)
+	leader, lepoch := k.leader, k.lepoch
+	// the metadata as the real servers hold it: the view of the first live replica that has
+	// applied every committed operation (all of them applied the same sequence); the driver's
+	// own bookkeeping is only used while no such replica exists
+	for _, id := range k.ids {
+		if p := k.part(id); p != nil && len(k.pending[id]) == 0 {
+			isr = p.GetISR()
+			sort.Strings(isr)
+			l, e := p.GetLeader()
+			leader, lepoch = l, e
+			break
+		}
+	}
 	st := vRepState{
-		Meta: map[string]interface{}{"leader": k.leader, "lepoch": k.lepoch, "isr": isr, "idx": k.idx},
+		Meta: map[string]interface{}{"leader": leader, "lepoch": lepoch, "isr": isr, "idx": k.idx},
 		Up:   map[string]bool{}, Role: map[string]string{}, Log: map[string][]vRepRec{},
 		HW: map[string]int64{}, HWDisk: map[string]int64{}, Ec: map[string][]vEpochEntry{},
 		IsrOff: map[string]map[string]int64{}, PendN: map[string]int64{},
@@ -1023,6 +1048,7 @@ func TestVerifReplication(t *testing.T) {
 		k := newVKit(t, ns, gate, b.ID, int(vIntDef(b.Cfg, "minISR", 2)), int(vIntDef(b.Cfg, "fetchMax", 2)), ids, int(vIntDef(b.Cfg, "batch", 1)))
 		k.gapMs = int(vIntDef(b.Cfg, "gapMs", 0))
 		k.minVia = vStrDef(b.Cfg, "minVia", "server")
+		k.wideEvery = int(vIntDef(b.Cfg, "wideEvery", 0))
 		k.lagMs = int(vIntDef(b.Cfg, "lagMs", 0))
 		k.create()
 		tw.Emit(vRepEvent{T: b.ID, A: "Open", Args: map[string]interface{}{}, St: k.state(),
